@@ -225,6 +225,33 @@ def tree_corrupt_option(sym, section, option, rule, maxlen, getter, k):
     sym.check("what-was-loaded-can-be-written", writable(ti))
 
 
+def tree_platforms(sym, k):
+    """[tree] platforms takes any selection of platform names: a document with an [images-P] section whose P is not listed is
+    rejected (the tree's own arch is no exception)"""
+    p = tree_parser(k)
+    arch = p.get("tree", "arch")
+    extra = sym.str("extra", 3, minlen=1, alphabet=["a-z", "0-9", "_"])
+    listed = []
+    for i, token in enumerate([arch, "xen", "ppc64le", extra]):
+        if sym.bool("listed%d" % i):
+            listed.append(token)
+    if not listed:
+        return          # an empty value is the deleted-option case (tree_delete)
+    p.set("tree", "platforms", ",".join(listed))
+    sym.cover("corrupted")
+    with_images = [sec[len("images-"):] for sec in p.sections() if sec.startswith("images-")]
+    unlisted = sym.or_(*[sym.not_(sym.or_(*[x == t for t in listed])) for x in with_images])
+    ti = productmd.treeinfo.TreeInfo()
+    try:
+        ti.loads(tree_text(p))
+        raised = False
+    except Exception:
+        raised = True
+    sym.check("unlisted-image-platform-rejected", sym.implies(unlisted, raised))
+    if not raised:
+        sym.check("what-was-loaded-can-be-written", writable(ti))
+
+
 CHILD_SECTIONS = {"Server-HA": ("addon-Server-HA", "HA"), "Server-optional": ("variant-Server-optional", "optional")}
 
 
@@ -380,6 +407,7 @@ def jobs(tier, seed):
             ("variant-Server-optional", "type", "tree-variant-type", 10, ["variants", "[Server]", "variants", "[optional]", "type"]),
             ("addon-Server-HA", "id", "tree-variant-id", 6, ["variants", "[Server]", "variants", "[HA]", "id"])]:
         out.append({"harness": "tree_corrupt_option", "params": {"section": section, "option": option, "rule": rule, "maxlen": maxlen, "getter": getter, "k": k}})
+    out.append({"harness": "tree_platforms", "params": {"k": k}})
     for child in sorted(CHILD_SECTIONS):
         out.append({"harness": "tree_child_misaligned", "params": {"child": child, "k": k}})
     out.append({"harness": "tree_header", "params": {"k": k}})
@@ -394,7 +422,7 @@ def jobs(tier, seed):
 
 META = {
     "expected_covers": {"corrupt_leaf": ["corrupted"], "header_type": ["loaded"], "header_version": ["loaded"], "delete_key": ["loaded"],
-                        "images_identity_collision": ["loaded"], "tree_corrupt_option": ["corrupted"], "tree_child_misaligned": ["corrupted"], "tree_header": ["loaded"], "tree_version": ["loaded"], "tree_delete": ["loaded"]},
+                        "images_identity_collision": ["loaded"], "tree_corrupt_option": ["corrupted"], "tree_child_misaligned": ["corrupted"], "tree_platforms": ["corrupted"], "tree_header": ["loaded"], "tree_version": ["loaded"], "tree_delete": ["loaded"]},
     "assumptions": [
         "base documents are produced by the real writer from valid objects (nested/layered-product variants, three images, one payload entry); one corruption at a time",
         "oracle: the load raises, or the value found in the loaded object is again inside the documented domain (the readers normalise e.g. numeric strings, "
